@@ -608,6 +608,206 @@ def run_float_correspondence(ck):
     ck.cov["float_correspondence"] = {"doubles": len(bits), "ints": len(ints), "mismatches": len(bad) + len(bad_i)}
 
 
+# ------------------------------------------------- tie H (4): the embedding path (const / initializer / constant)
+def py_values(rng, extra):
+    """An exhaustive small universe of values a user hands to const(): -> [(json for the model, python value)]"""
+    import numpy as np
+
+    def sc(v):
+        if isinstance(v, bool):
+            return {"k": "bool", "v": v}
+        if isinstance(v, int):
+            return {"k": "int", "v": v}
+        if isinstance(v, float):
+            return {"k": "float", "bits": struct.unpack("<Q", struct.pack("<d", v))[0]}
+        return {"k": "str", "v": [ord(c) for c in v]}
+
+    bools = [True, False]
+    ints = [0, 1, -1, 2**31, 2**63 - 1, -2**63, 2**63, 2**64 - 1, 2**64, -2**63 - 1, 2**53 + 1, 10**400]
+    floats = [0.0, -0.0, 1.5, 0.1, float("nan"), float("inf"), 1e40, 5e-324]
+    strs = ["", "a", "ü", "a\x00", "\x00", "a\x00b", "日本\U0001F600"]
+    scalars = bools + ints + floats + strs
+    out = [(sc(v), v) for v in scalars]
+    # numpy scalars of every element type
+    for d in DT_ALL:
+        if d == "str":
+            for t in ("x", "ü\x00", ""):
+                out.append(({"k": "npscalar", "dtype": "str", "words": [], "str": [ord(c) for c in t]}, np.str_(t)))
+            continue
+        for _ in range(2):
+            ws = rand_words(rng, d, comps(d))
+            arr = make_array({"dtype": d, "shape": [], "words": ws})
+            out.append(({"k": "npscalar", "dtype": d, "words": ws, "str": []}, arr[()]))
+    # arrays (incl. 0-d, empty, non-contiguous)
+    for d in DT_ALL:
+        for shape in ([], [0], [2, 2]):
+            spec = rand_spec(rng, d, shape, layout=rng.choice(["C", "F", "strided"]))
+            arr = make_array(spec)
+            out.append(({"k": "array", **{k: v for k, v in spec_of(arr).items() if k != "layout"}}, arr))
+    # all lists of length <= 2 over a base set, plus seeded longer ones
+    base = [True, False, 0, -1, 2**63 - 1, 2**63, 2**64 - 1, 2**64, -2**63 - 1, 1.5, -0.0, float("nan"), "a", "ü\x00", ""]
+    lists = [[]] + [[a] for a in base] + [[a, b] for a in base for b in base]
+    for _ in range(extra):
+        lists.append([rng.choice(base) for _ in range(rng.randrange(3, 6))])
+    for l in lists:
+        out.append(({"k": "list", "items": [sc(x) for x in l]}, list(l)))
+    out.append(({"k": "list", "items": [sc(x) for x in (1, 2)]}, (1, 2)))
+    small = [True, 0, -1, 2**63, 1.5, "a"]
+    nests = [[[a], [b]] for a in small for b in small] + [[[a, b]] for a in small for b in small]
+    nests += [[[1], [2, 3]], [[], []], [[1, 2], [3, 4.5]], [[], [1]], [["a", "b"], ["c", "d\x00"]]]
+    for n in nests:
+        out.append(({"k": "nested", "rows": [[sc(x) for x in r] for r in n]}, [list(r) for r in n]))
+    return out
+
+
+def _real_embedded(fn_name, make, route, args_of=None):
+    """Run a real route; ('err', class) or ('ok', {type, tensor(words), prop})."""
+    import spox.opset.ai.onnx.v17 as op
+
+    try:
+        var = make()
+    except Exception as e:  # noqa: BLE001
+        return ("err", type(e).__name__)
+    res = {"type": None, "tensor": None, "prop": None, "route": None}
+    t = var.type
+    res["type"] = (canon_name(t.dtype), list(t.shape))
+    if route == "constant":
+        a = _first_attr_tensor(_build_bytes(var), "Constant", "value")
+        res["route"] = "constant" if a is not None and a["type"] == W.ATTR_TYPE["TENSOR"] else "?"
+        res["tensor"] = W.tensor_typed(a["t"]) if a else None
+    else:
+        args = (var,) if fn_name == "arg_default" else ()
+        g = W.fields(W.graph_of_model(_build_bytes(op.identity(var), args, ["x"] if args else None)))
+        inits = [v for f, _, v in g if f == W.GRAPH_INITIALIZER]
+        res["route"] = "initializer" if len(inits) == 1 else "?"
+        res["tensor"] = W.tensor_typed(inits[0]) if inits else None
+    if fn_name != "arg_default":
+        res["prop"] = peek("Var._get_value", lambda: _obs_array(var._get_value()))
+    return ("ok", res)
+
+
+def _cmp_embedded(m, r):
+    """model outcome json vs real outcome -> None | description"""
+    if "unmodelled" in m:
+        return None
+    if r[0] == "err":
+        name = r[1] if r[1] in ("TypeError", "AttributeError", "ValueError") else "other"
+        return None if m.get("err") == name else f"real raises {r[1]}, model {m.get('err') or 'accepts'}"
+    if "ok" not in m:
+        return f"real accepts, model raises {m.get('err')}"
+    mo, ro = m["ok"], r[1]
+    if mo["route"] != ro["route"]:
+        return f"route: model {mo['route']} real {ro['route']}"
+    if [mo["type"]["dtype"], mo["type"]["shape"]] != [ro["type"][0], ro["type"][1]]:
+        return f"Var.type: model {mo['type']} real {ro['type']}"
+    for k in ("data_type", "dims", "int32_data", "int64_data", "uint64_data", "double_data", "string_data"):
+        if mo["proto"][k] != ro["tensor"][k]:
+            return f"tensor field {k}: model {str(mo['proto'][k])[:60]} real {str(ro['tensor'][k])[:60]}"
+    if not same_words("float32", mo["proto"]["float_data"], ro["tensor"]["float_data"]):
+        return "tensor field float_data"
+    if ro["prop"] is not None and ro["prop"] is not UNOBS and mo["prop"] is not None:
+        mp = mo["prop"]
+        data = mp["words"] if mp["dtype"] != "str" else [list("".join(map(chr, s)).encode("utf-8")) for s in mp["strs"]]
+        if mp["dtype"] != ro["prop"]["dtype"] or mp["shape"] != ro["prop"]["shape"] or not (
+                data == ro["prop"]["data"] if mp["dtype"] == "str" else same_words(mp["dtype"], data, ro["prop"]["data"])):
+            return f"propagated value: model {str(mp)[:80]} real {str(ro['prop'])[:80]}"
+    return None
+
+
+def run_embed_correspondence(ck, q):
+    import numpy as np
+
+    import spox.opset.ai.onnx.v17 as op
+
+    fut_init = _imp("spox._future", "initializer")
+    g_init = _imp("spox._graph", "initializer")
+    g_args = _imp("spox._graph", "arguments")
+    vals = py_values(ck.rng, ck.pick(60, 1500))
+    reqs, real = [], []
+    for j, v in vals:
+        reqs.append({"op": "embed", "q": q, "fn": "const", "val": j})
+        real.append(("const", j, v, lambda v=v: _real_embedded("const", lambda: op.const(v), "constant")))
+        if fut_init is not None:
+            reqs.append({"op": "embed", "q": q, "fn": "future_initializer", "val": j})
+            real.append(("future_initializer", j, v, lambda v=v: _real_embedded("future_initializer", lambda: fut_init(v), "initializer")))
+        if j["k"] == "array":
+            if g_init is not None:
+                reqs.append({"op": "embed", "q": q, "fn": "initializer", "val": j})
+                real.append(("initializer", j, v, lambda v=v: _real_embedded("initializer", lambda: g_init(v), "initializer")))
+            if g_args is not None:
+                reqs.append({"op": "embed", "q": q, "fn": "arg_default", "val": j})
+                real.append(("arg_default", j, v, lambda v=v: _real_embedded("arg_default", lambda: g_args(x=v)[0], "initializer")))
+    outs = ck.driver().ask_many("C10", reqs)
+    mism = unmod = 0
+    for (fn, j, v, run_real), m in zip(real, outs):
+        if "error" in m:
+            mism += 1
+            ck.broken("correspondence", "C10 embed (driver error)", f"{fn} {j}: {m}")
+            continue
+        if "unmodelled" in m:
+            unmod += 1
+            continue
+        r = run_real()
+        ck.count(("embed-corr", fn, j["k"], r[0], str(j.get("dtype", ""))))
+        bad = _cmp_embedded(m, r)
+        if bad:
+            mism += 1
+            if mism <= 3:
+                ck.broken("correspondence", "C10 const/initializer model vs real", f"{fn}({str(v)[:60]!r}): {bad}")
+    # constant(value_*=…): attribute + propagated value, over the attribute value universe
+    keys = {"value": "AttrTensor", "value_float": "AttrFloat32", "value_floats": "AttrFloat32s", "value_int": "AttrInt64",
+            "value_ints": "AttrInt64s", "value_string": "AttrString", "value_strings": "AttrStrings"}
+    uni = value_universe(ck.rng, ck.pick(20, 300))
+    creqs, creal = [], []
+    for key in keys:
+        for j, v in uni:
+            if j["k"] in ("none",):
+                continue  # None means "attribute not given"
+            creqs.append({"op": "constant", "q": q, "key": key, "val": j})
+            creal.append((key, j, v))
+    couts = ck.driver().ask_many("C10", creqs)
+    n_const = 0
+    for (key, j, v), m in zip(creal, couts):
+        if "error" in m:
+            mism += 1
+            ck.broken("correspondence", "C10 constant (driver error)", f"{key} {j}: {m}")
+            continue
+        if j["k"] in ("ndarray", "badarray", "sequence", "bytes") and key in ("value_floats", "value_ints", "value_strings"):
+            continue  # outside the model's domain (inDomain)
+        try:
+            var = op.constant(**{key: copy.copy(v) if isinstance(v, list) else v})
+            r = ("ok", var)
+        except Exception as e:  # noqa: BLE001
+            r = ("err", type(e).__name__)
+        n_const += 1
+        ck.count(("constant-corr", key, j["k"], r[0]))
+        bad = None
+        if r[0] == "err":
+            if "ok" in m and not m["prop_modelled"]:
+                pass  # value propagation of a `bytes` string attribute (numpy decodes it as ASCII): outside the model
+            elif m.get("err") != r[1]:
+                bad = f"real raises {r[1]}, model {m.get('err') or 'accepts'}"
+        elif "ok" not in m:
+            bad = f"real accepts, model raises {m.get('err')}"
+        elif m["prop_modelled"]:
+            o = peek("Var._get_value", lambda: _obs_array(r[1]._get_value()))
+            mp = m["prop"]
+            if o is not UNOBS:
+                data = mp["words"] if mp["dtype"] != "str" else [list("".join(map(chr, s)).encode("utf-8")) for s in mp["strs"]]
+                t = r[1].type
+                if (mp["dtype"], mp["shape"]) != (canon_name(t.dtype), list(t.shape)):
+                    bad = f"Var.type: model {mp['dtype']}{mp['shape']} real {t}"
+                elif mp["dtype"] != o["dtype"] or mp["shape"] != o["shape"] or not (
+                        data == o["data"] if mp["dtype"] == "str" else same_words(mp["dtype"], data, o["data"])):
+                    bad = f"propagated: model {str(mp)[:80]} real {str(o)[:80]}"
+        if bad:
+            mism += 1
+            if mism <= 3:
+                ck.broken("correspondence", "C10 constant(value_*) model vs real", f"constant({key}={str(v)[:50]!r}): {bad}")
+    ck.cov["embed_correspondence"] = {"values": len(vals), "cases": len(reqs), "outside_model": unmod,
+                                      "constant_cases": n_const, "mismatches": mism}
+
+
 # ------------------------------------------------------------------- real capture sites (shared)
 class Site:
     """A real constructor that receives a caller-owned mutable object.
@@ -1665,6 +1865,7 @@ def run(ck: core.Check):
     for facet, fn in (("fromArray/toArray", lambda: run_enc_correspondence(ck, q)),
                       ("Attr constructors", lambda: run_attr_correspondence(ck, q)),
                       ("float rounding", lambda: run_float_correspondence(ck)),
+                      ("const/initializer/constant", lambda: run_embed_correspondence(ck, q)),
                       ("capture", lambda: run_capture_correspondence(ck, info) if info else None)):
         try:
             fn()
